@@ -4,3 +4,6 @@
 package tensor
 
 func verifHook(event string, size int, id uintptr) {}
+
+// verifEnabled is true in builds with the verification hooks.
+const verifEnabled = false
